@@ -151,6 +151,49 @@ def diag_and_sub(t, out):
     emit("sd_base", ["b0", "s0", "s1", "ib", "ie"], marith(m.group(2), w))
 
 
+def transpose_and_reshape(t, out):
+    """in_place_transpose() as a straight-line program over dimensions_[0..1], offset_[0..1] and a temporary, run
+    symbolically; reshape(dims) of a vector: stride of the last new dimension and the recurrence for the others"""
+    w = "in_place_transpose"
+    b = fbody(t, r"Array\s*&\s*in_place_transpose\s*\(\s*\)\s*\{", w)
+    m = re.fullmatch(r"\{ADEPT_STATIC_ASSERT\(Rank==2,[A-Z_0-9]+\);Indextmp;((?:[a-z_\[\]01]+=[a-z_\[\]01]+;)+)return\*this;\}", b)
+    if not m:
+        die("in_place_transpose: form not recognised: " + b[:300])
+    val = {"dimensions_[0]": "d0", "dimensions_[1]": "d1", "offset_[0]": "s0", "offset_[1]": "s1"}
+    for st in m.group(1).strip(";").split(";"):
+        l, r = st.split("=")
+        if r not in val or (l != "tmp" and l not in ("dimensions_[0]", "dimensions_[1]", "offset_[0]", "offset_[1]")):
+            die("in_place_transpose: statement '%s'" % st)
+        val[l] = val[r]
+    out.append("")
+    out.append("(* in_place_transpose(): the members after the straight-line swap, in terms of the members before *)")
+    for n, k in (("tr_d0", "dimensions_[0]"), ("tr_d1", "dimensions_[1]"), ("tr_s0", "offset_[0]"), ("tr_s1", "offset_[1]")):
+        out.append("Definition %s (d0 d1 s0 s1 : Z) : Z := %s." % (n, val[k]))
+    for fn in ("my_T",):
+        bodies = set(squeeze(t[x.end() - 1:t.index("}", x.end()) + 1]) for x in re.finditer(r"my_T\s*\(\s*\)\s*(?:const\s*)?\{", t)
+                     if "MyRank==2" in squeeze(t[max(0, x.start() - 200):x.start()]))
+        ok = {"{Array<2,Type,IsActive>out(*this);returnout.in_place_transpose();}", "{Array<2,Type,IsActive>out(const_cast<Array&>(*this));returnout.in_place_transpose();}"}
+        if not bodies or not bodies <= ok:
+            die("my_T<2>: not 'link to *this, then in_place_transpose()': %s" % sorted(bodies))
+    w = "reshape"
+    b = fbody(t, r"reshape\s*\(\s*const\s+ExpressionSize<NewRank>\s*&\s*dims\s*\)\s*\{", w)
+    m = re.fullmatch(r"\{ADEPT_STATIC_ASSERT\(Rank==1,[A-Z_]+\);Indexnew_size=1;for\(inti=0;i<NewRank;\+\+i\)\{new_size\*=dims\[i\];\}"
+                     r"if\(new_size!=dimensions_\[0\]\)\{throwinvalid_dimension\([^;]*\);\}ExpressionSize<NewRank>offset;"
+                     r"offset\[NewRank-1\]=([^;]+);for\(inti=NewRank-2;i>=0;--i\)\{offset\[i\]=([^;]+);\}"
+                     r"returnArray<NewRank,Type,IsActive>\(data_,storage_,dims,offset\);\}", b)
+    if not m:
+        die("reshape: form not recognised: " + b[:400])
+    out.append("(* reshape(dims) of a vector: rejected unless the product of dims is the length; base kept; strides from the last one backwards *)")
+    last = m.group(1).replace("offset_[0]", "S0")
+    step = m.group(2).replace("dims[i+1]", "DN").replace("offset[i+1]", "SN")
+    pl = E(last, {"S0": "s0"}, w); el = pl.arith()
+    ps = E(step, {"DN": "dn", "SN": "sn"}, w); es = ps.arith()
+    if pl.peek() is not None or ps.peek() is not None:
+        die("reshape: trailing tokens")
+    out.append("Definition rs_last (s0 : Z) : Z := %s." % el)
+    out.append("Definition rs_step (dn sn : Z) : Z := %s." % es)
+
+
 def main():
     t = S.strip(open(os.path.join(REPO, "include/adept/Array.h")).read())
     out = ["(* GENERATED by tools/gen_slice.py from include/adept/Array.h -- do not edit *)",
@@ -228,6 +271,7 @@ def main():
     out.append("   starting from ibegin = 0, and build the view from data_ + ibegin, new_dim, new_offset *)")
     out.append("Definition sl_start : Z := 0.")
     diag_and_sub(t, out)
+    transpose_and_reshape(t, out)
     out.append("Definition sl_overloads : Z := %d." % n_over)
     sys.stdout.write("\n".join(out) + "\n")
 
